@@ -28,6 +28,7 @@
 From Coq Require Import NArith ZArith List Bool Arith.
 From PLV Require Import Base.PyStr Tok.Tokenizer Parse.Nodes Parse.Parser L2T.L2T.
 From PLV Require Import Proofs.L2TUnfold Proofs.L2TFilters Proofs.L2TFiltersCover.
+From PLV Require Import L2T.L2TWire Doc.DocGrammar Proofs.ComposePos Proofs.ComposeComments.
 From PLV Require Gen.GenWalkerCtx Gen.GenL2TCtx.
 Import ListNotations.
 
@@ -389,3 +390,111 @@ Section Examples.
        = [97; 10; 98; 10; 120; 10; 32; 32; 32; 32; 121; 10]%N.
   Proof. split; vm_compute; reflexivity. Qed.
 End Examples.
+
+(** * Source level (composition with C02): [C12_source_level]
+
+    The theorems above are about TREES.  [Properties/C02.v:
+    C02_parse_unparse_partial] says which tree the strict parser returns for a
+    written document of the core grammar ([Doc/DocGrammar.v]: text, groups,
+    macros with mandatory braced arguments, inline / display math, comments,
+    paragraph breaks; [ok_doc] = the side conditions that make the written form
+    unambiguous).  Composed:
+
+    two documents [d], [d'] of that grammar that differ ONLY in the text of their
+    comments ([same_but_comments]: same items, same whitespace fields, same
+    comment post-space; comments at any depth — in groups, macro arguments,
+    formulas) are converted to the SAME text (and document state) by
+    [latex_to_text] with the default databases whenever [keep_comments] is off
+    and the math mode is 'text', 'with-delimiters' or 'remove'.
+
+    With [math_mode='verbatim'] the statement is false for comments inside a
+    formula (the formula's source is reproduced, second clause of the property;
+    see [C12_source_level_nonvacuous]); that mode is excluded here.
+
+    The glue between the two properties is [C12_positions_irrelevant]: the
+    comment texts have different lengths, so every later position (and the
+    source string) differs between the two trees — outside verbatim mode the
+    renderer reads neither.
+
+    PARTIAL: the core grammar of C02 only (no environments, optional / star
+    arguments, specials other than the paragraph break, [$$..$$], verbatim); and
+    the verbatim math mode with comment-free formulas is not stated. *)
+
+(** [repos n] = [n] with every position zeroed *)
+Theorem C12_positions_irrelevant : forall src src' lt cx o,
+  o_math o <> MMVerbatim ->
+  forall n sl st, node_text src' lt cx o sl st (repos n) = node_text src lt cx o sl st n.
+Proof. exact repos_text. Qed.
+Print Assumptions C12_positions_irrelevant.
+
+(** the meanings of the two documents are equal up to positions and comment
+    texts ([E] = [repos] then every comment text replaced by the empty string):
+    any context, any parsing state, any offsets *)
+Theorem C12_trees_same_but_comments : forall cx ps pos pos' d d',
+  same_but_comments d d' ->
+  map (fun x => match x with Some c => Some (map_comment_text (fun _ => []) (repos c)) | None => None end)
+      (fst (tree_of cx ps pos d))
+  = map (fun x => match x with Some c => Some (map_comment_text (fun _ => []) (repos c)) | None => None end)
+        (fst (tree_of cx ps pos' d')).
+Proof. exact tree_sbc. Qed.
+Print Assumptions C12_trees_same_but_comments.
+
+Theorem C12_source_level_partial : forall o d d',
+  same_but_comments d d' ->
+  ok_doc Gen.GenWalkerCtx.default_ctx d = true -> ok_doc Gen.GenWalkerCtx.default_ctx d' = true ->
+  o_keep_comments o = false -> o_math o <> MMVerbatim ->
+  exists r, latex_to_text o (unparse d) false = Some r /\ latex_to_text o (unparse d') false = Some r.
+Proof. exact source_level. Qed.
+Print Assumptions C12_source_level_partial.
+
+(** non-vacuity: [a %SEC\n\textbf{b%INN\n }  $x %MC\ny$\n\nz\n] and the same document with the
+    comment texts [XXXXXX], (empty), [Q{$]: different sources, both satisfy the side
+    conditions, same output [a \nb\n x \ny\n\nz\n]; with [keep_comments] the outputs differ, and
+    in verbatim mode they differ too (the comment inside the formula is reproduced) *)
+Section SourceExample.
+  Open Scope N_scope.
+  Let mkd (c1 c2 c3 : str) : doc :=
+    {| d_items :=
+         [Text [] [97];
+          Cmt [32] c1 [10];
+          Mac [] [116;101;120;116;98;102] [] [Grp [] [Text [] [98]; Cmt [] c2 [10; 32]] []];
+          Math [32] MDollar [Text [] [120]; Cmt [32] c3 [10]; Text [] [121]] [];
+          Par [] [];
+          Text [] [122]];
+       d_trail := [10] |}.
+  Let dA := mkd [83;69;67] [73;78;78] [77;67].
+  Let dB := mkd [88;88;88;88;88;88] [] [81;123;36].
+  Let o_of (mm : mathmode) (kc : bool) : opts :=
+    {| o_math := mm; o_keep_comments := kc; o_sls := sls_bos; o_kbg := false; o_kbg_minlen := 0 |}.
+  Example C12_source_level_nonvacuous :
+    same_but_comments dA dB
+    /\ ok_doc Gen.GenWalkerCtx.default_ctx dA = true /\ ok_doc Gen.GenWalkerCtx.default_ctx dB = true
+    /\ unparse dA <> unparse dB
+    /\ option_map fst (latex_to_text (o_of MMText false) (unparse dA) false)
+       = Some [97; 32; 10; 98; 10; 32; 120; 32; 10; 121; 10; 10; 122; 10]
+    /\ latex_to_text (o_of MMText false) (unparse dA) false = latex_to_text (o_of MMText false) (unparse dB) false
+    /\ latex_to_text (o_of MMWithDelims false) (unparse dA) false
+       = latex_to_text (o_of MMWithDelims false) (unparse dB) false
+    /\ latex_to_text (o_of MMText true) (unparse dA) false <> latex_to_text (o_of MMText true) (unparse dB) false
+    /\ latex_to_text (o_of MMVerbatim false) (unparse dA) false
+       <> latex_to_text (o_of MMVerbatim false) (unparse dB) false.
+  Proof.
+    split; [unfold same_but_comments; cbn; repeat split|].
+    split; [vm_compute; reflexivity|]. split; [vm_compute; reflexivity|].
+    split; [vm_compute; discriminate|]. split; [vm_compute; reflexivity|].
+    assert (W : same_but_comments dA dB) by (unfold same_but_comments; cbn; repeat split).
+    split; [|split; [|split]].
+    - assert (H : exists r, latex_to_text (o_of MMText false) (unparse dA) false = Some r
+                            /\ latex_to_text (o_of MMText false) (unparse dB) false = Some r)
+        by (apply C12_source_level_partial;
+            [exact W | vm_compute; reflexivity | vm_compute; reflexivity | reflexivity | discriminate]).
+      destruct H as (r & A & B). congruence.
+    - assert (H : exists r, latex_to_text (o_of MMWithDelims false) (unparse dA) false = Some r
+                            /\ latex_to_text (o_of MMWithDelims false) (unparse dB) false = Some r)
+        by (apply C12_source_level_partial;
+            [exact W | vm_compute; reflexivity | vm_compute; reflexivity | reflexivity | discriminate]).
+      destruct H as (r & A & B). congruence.
+    - vm_compute. discriminate.
+    - vm_compute. discriminate.
+  Qed.
+End SourceExample.
